@@ -24,7 +24,7 @@ func (vc *FuncVC) attachFindings(fs []Finding, prop string) {
 			continue
 		}
 		for _, o := range vc.Obls {
-			if o.Name == f.Obl || shortKey(o.Name) == f.Obl {
+			if o.Name == f.Obl || shortKey(o.Name) == f.Obl || stripOrd(shortKey(o.Name)) == f.Obl || stripOrd(o.Name) == f.Obl {
 				af := &attachedFinding{Finding: f}
 				if f.Class != "" && vc.entryEval != nil {
 					g := vc.Gen
@@ -75,4 +75,20 @@ func (vc *FuncVC) checkKnown(o *Obligation, kf *attachedFinding, opts SolveOpts,
 	}
 	o.Output = "outside the known-finding class: " + r.Output
 	return "new"
+}
+
+// stripOrd removes the per-kind ordinal "[n]" from an obligation name, so that a finding can name every
+// return site / occurrence of the same clause in a function.
+func stripOrd(name string) string {
+	i := strings.Index(name, "#")
+	if i < 0 {
+		return name
+	}
+	j := strings.Index(name[i:], "[")
+	k := strings.Index(name[i:], "]")
+	b := strings.Index(name[i:], "{")
+	if j < 0 || k < j || (b >= 0 && j > b) {
+		return name
+	}
+	return name[:i+j] + name[i+k+1:]
 }
